@@ -584,6 +584,12 @@ func (data *Data) DropShard(id uint64) {
 
 // CopyShardOwner copies a shard owner by ID and NodeID.
 func (data *Data) CopyShardOwner(id, nodeID uint64) {
+	// The target must be a current data node. The command may be applied after
+	// the node was removed; a removed node must never become an owner.
+	if data.DataNode(nodeID) == nil {
+		return
+	}
+
 	found := -1
 	for dbidx, dbi := range data.Databases {
 		for rpidx, rpi := range dbi.RetentionPolicies {
